@@ -158,7 +158,7 @@ class Harness:
             # restart: start options are not valid
             for k, v in self.opts.items():
                 if k not in ('icp', 'startcp', 'starttask', 'fcp', 'stopcp',
-                             'holdcp', 'paused_start'):
+                             'holdcp'):
                     opts[k] = v
         options = RunOptions(**opts)
         schd = Scheduler(self.wf, options)
